@@ -168,7 +168,45 @@ func c11RandDec(r *Rand) string {
 	return s
 }
 
+// c11Respell re-spells an integer the way strconv.Atoi still accepts it: leading zeros (fixed-width fields),
+// an explicit plus sign.  The value is unchanged, the text (and its length) is not.
+func c11Respell(r *Rand, s string) string {
+	if _, err := strconv.Atoi(s); err != nil || s == "" {
+		return s
+	}
+	sign, digits := "", s
+	if s[0] == '-' || s[0] == '+' {
+		sign, digits = s[:1], s[1:]
+	}
+	switch r.Intn(4) {
+	case 0:
+		if sign == "" {
+			return "+" + digits
+		}
+	case 1:
+		return sign + "0" + digits
+	case 2:
+		return sign + strings.Repeat("0", r.Range(2, 4)) + digits
+	case 3:
+		if len(digits) < 20 {
+			return sign + strings.Repeat("0", 20-len(digits)) + digits // 20 characters: longer than any int64
+		}
+	}
+	return s
+}
+
 func c11Value(r *Rand, k c11Kind, prev []string) string {
+	v := c11ValueRaw(r, k, prev)
+	switch k {
+	case kInt, kPow10, kUint, kIdx, kSmallPos:
+		if r.Chance(1, 6) {
+			return c11Respell(r, v)
+		}
+	}
+	return v
+}
+
+func c11ValueRaw(r *Rand, k c11Kind, prev []string) string {
 	switch k {
 	case kInt:
 		if r.Chance(1, 4) {
@@ -353,6 +391,16 @@ func c11Gen(r *Rand, tier string) []string {
 			out = c11Both(out, h.name, c11GenHelper(r, h))
 		}
 	}
+	// spellings, always: the unary integer helpers on non-canonical spellings of small and large values
+	for _, v := range []string{"+5", "007", "0123", "+100", "00000000000000000001", "-007", "+0", "00", "0999", "+1000", "01000",
+		"+9223372036854775807", "09223372036854775807", "-09223372036854775808"} {
+		for _, name := range []string{"expbucket", "hi", "isint", "downscale", "bytesize", "bytesizesi"} {
+			out = c11Both(out, name, []c11Arg{{val: v, mode: 1}})
+		}
+		out = c11Both(out, "bucket", []c11Arg{{val: v, mode: 1}, {val: "010"}})
+		out = c11Both(out, "clamp", []c11Arg{{val: v, mode: 1}, {val: "+1"}, {val: "0100"}})
+		out = c11Both(out, "substr", []c11Arg{{val: "abcdef", mode: 1}, {val: v, mode: 1}, {val: "+2"}})
+	}
 	// boundary grid, always: integer helpers on all pairs of the extreme values, constants and groups
 	ext := []string{"0", "1", "-1", "2", "-2", "10", "9223372036854775807", "-9223372036854775808", "9223372036854775806", "-9223372036854775807"}
 	for _, name := range []string{"sumi", "subi", "multi", "divi", "modi", "maxi", "mini"} {
@@ -409,6 +457,9 @@ func c11Exhaustive(r *Rand) []string {
 		out = c11Both(out, "hi", []c11Arg{{val: p, mode: 1}})
 		out = c11Both(out, "hi", []c11Arg{{val: "-" + p, mode: 1}})
 		out = c11Both(out, "expbucket", []c11Arg{{val: p, mode: 1}})
+		out = c11Both(out, "expbucket", []c11Arg{{val: c11Respell(r, p), mode: 1}})
+		out = c11Both(out, "hi", []c11Arg{{val: c11Respell(r, p), mode: 1}})
+		out = c11Both(out, "downscale", []c11Arg{{val: c11Respell(r, p), mode: 1}})
 		out = c11Both(out, "downscale", []c11Arg{{val: p, mode: 1}})
 		out = c11Both(out, "bytesizesi", []c11Arg{{val: p, mode: 1}, {val: "1"}})
 	}
